@@ -76,7 +76,7 @@ def ref_rate(prog, i):
     if isinstance(i, str):
         return LEAF_RATE[i]
     n = prog['nodes'][i]
-    return max(ref_rate(prog, a) for a in (n[2:] if n[0] == 'maddl' else n[1:]))
+    return max(ref_rate(prog, a) for a in (n[2:] if n[0] == 'maddl' else (n[1], n[3]) if n[0] in ('rl-', 'rl/') else n[1:]))
 
 
 def well_formed(prog):
@@ -123,6 +123,10 @@ def den_src(prog, consts):
             v = a[0] * a[1] + a[2]
         elif op == 'maddl':
             v = a[1] * a[2] + a[3]
+        elif op == 'rl-':
+            v = a[0] - a[2]
+        elif op == 'rl/':
+            v = a[0] / a[2]
         elif op in ('sum', 'mix', 'sumn'):
             v = a[0]
             for x in a[1:]:
@@ -171,7 +175,7 @@ def run_prog(ctx, prog):
             op = n[0]
             a = [get(x) for x in n[1:]]
             if all(isinstance(x, (int, float, SymReal)) for x in a) or \
-                    (op not in ('+', '-', '*', '/') and isinstance(a[0], (int, float, SymReal))):
+                    (op not in ('+', '-', '*', '/', 'rl-', 'rl/') and isinstance(a[0], (int, float, SymReal))):
                 # constant shortcuts turned every operand into a plain number: the user's own arithmetic, outside
                 ctx.note('numeric-fold')
                 raise PathAbort('number op number')
@@ -182,6 +186,9 @@ def run_prog(ctx, prog):
             elif op == 'maddl':
                 # list form with channels of different rates: the node is the SECOND channel
                 v = ugn.ChannelList([a[0], a[1]]).madd(a[2], a[3])[1]
+            elif op in ('rl-', 'rl/'):
+                # a plain number / a unit on the LEFT of a channel list (reflected operator of the list)
+                v = (a[0] - ugn.ChannelList([a[1], a[2]]) if op == 'rl-' else a[0] / ugn.ChannelList([a[1], a[2]]))[1]
             elif op == 'mix':
                 v = MIX().new(list(a))
             elif op == 'sumn':
@@ -246,8 +253,10 @@ def run_prog(ctx, prog):
     #     source (or a documented rewrite: + - * neg) can produce
     allowed_b = {scgf.BINARY_INDEX[n[0]] for n in prog['nodes'] if n[0] in scgf.BINARY_INDEX and len(n) == 3}
     allowed_u = {scgf.UNARY_INDEX[n[0]] for n in prog['nodes'] if n[0] in scgf.UNARY_INDEX and len(n) == 2}
-    rewrite_b = {0, 1, 2} if any(n[0] in ('+', '-', '*', '/', 'neg', 'madd', 'maddl', 'sum', 'mix', 'sumn') for n in prog['nodes']) else set()
-    rewrite_u = {0} if any(n[0] in ('-', '*', '/', 'madd', 'maddl', 'neg') for n in prog['nodes']) else set()
+    if any(n[0] == 'rl/' for n in prog['nodes']):
+        allowed_b.add(scgf.BINARY_INDEX['/'])
+    rewrite_b = {0, 1, 2} if any(n[0] in ('+', '-', '*', '/', 'neg', 'madd', 'maddl', 'rl-', 'rl/', 'sum', 'mix', 'sumn') for n in prog['nodes']) else set()
+    rewrite_u = {0} if any(n[0] in ('-', '*', '/', 'madd', 'maddl', 'rl-', 'rl/', 'neg') for n in prog['nodes']) else set()
     for i, u in enumerate(d['ugens']):
         if u['cls'] == 'BinaryOpUGen' and u['spec'] not in allowed_b | rewrite_b:
             raise Violation(f'binary operator unit carries opcode {u["spec"]} ({scgf.BINARY[u["spec"]]}), source '
@@ -450,6 +459,11 @@ def programs(tier):
     for x, y in (('A', 'K'), ('K', 'A'), ('A', 'B'), ('K', 'K')):
         for m, a in (('c1', 'c2'), ('K', 'c1'), ('c1', 'K'), ('A', 'c1')):
             tmpl.append(([('maddl', x, y, m, a)], [0]))
+    # a number or a unit on the left of a channel list (the list's reflected operators)
+    for left in ('c1', 'K', 'A'):
+        for x, y in (('A', 'B'), ('K', 'A'), ('A', 'K')):
+            tmpl.append(([('rl-', left, x, y)], [0]))
+            tmpl.append(([('rl/', left, x, y)], [0]))
     for op in ['+', '*', '-']:
         # sharing: the same object twice by one operator, rewritten sums used twice
         tmpl.append(([('+', 'A', 'B'), ('+', 0, 'K'), (op, 1, 1)], [2]))
@@ -562,6 +576,8 @@ def replay(rec):
                 v.append(ugn.ChannelList(a).sum())
             elif op == 'maddl':
                 v.append(ugn.ChannelList([a[0], a[1]]).madd(a[2], a[3])[1])
+            elif op in ('rl-', 'rl/'):
+                v.append((a[0] - ugn.ChannelList([a[1], a[2]]) if op == 'rl-' else a[0] / ugn.ChannelList([a[1], a[2]]))[1])
             elif op == 'mix':
                 v.append(MIX().new(list(a)))
             elif op == 'sumn':
@@ -660,6 +676,10 @@ def replay(rec):
                 return a[0] * a[1] + a[2]
             if op == 'maddl':
                 return a[1] * a[2] + a[3]
+            if op == 'rl-':
+                return a[0] - a[2]
+            if op == 'rl/':
+                return a[0] / a[2] if a[2] != 0 else Fraction(0)
             if op in ('sum', 'mix', 'sumn'):
                 return sum(a)
             if op in scgf.UNARY_INDEX and len(a) == 1:
